@@ -26,6 +26,9 @@ structure Cfg where
   coins : List Nat := []               -- value of each coin switch, in money units
   tiers : List (Nat × Nat) := []       -- pricing_tiers: (price in money units, credits)
   events : List Nat := []              -- credits given by each credit event
+  service : Bool := true               -- a `service_credits_switch` is configured
+  persist : Nat := 0                   -- persist_credits_while_off_time in s (0 = credit_units is not persisted)
+  inhibit : Bool := false              -- a `coin_inhibit_disable_output` is configured
   deriving Repr
 
 /-- price of tier 0, or one currency unit without pricing tiers -/
@@ -125,6 +128,13 @@ structure St where
   awards : Nat := 0               -- "award Awards"
   service : Nat := 0              -- "service_credit Awards"
   paid : Nat := 0                 -- "3 Total Paid Games"
+  inhibit : Option Bool := none   -- last command to the coin-inhibit-disable output (some true = enabled = coins allowed)
+  stamp : Nat := 0                -- time of the last write of credit_units (its on-disk expiry runs from here)
+  persisted : Bool := false       -- credit_units is written to disk
+  expSecs : Nat := 0              -- ... and expires this many seconds after `stamp` (0 = never)
+  nAdded : Nat := 0               -- `credits_added` events posted
+  nMax : Nat := 0                 -- `max_credits_reached` events posted
+  nNotEnough : Nat := 0           -- `not_enough_credits` events posted
   -- ghost ledger (not in the implementation)
   inUnits : Int := 0              -- credit units bought with accepted coins
   bonus : Int := 0                -- pricing-tier bonus granted
@@ -139,12 +149,19 @@ inductive Op
   | adv (n : Nat)
   | fpOn | fpOff | toggle
   | reset | slam | earnReset
+  | reboot (off : Nat)            -- power off, `off` seconds without power, power on
+  | coinToggle (i : Nat)          -- a coin drops while a `toggle_credit_play` event is in the queue: coin first, then toggle
   deriving DecidableEq, Repr
 
 def players (s : St) : Nat := match s.game with | none => 0 | some g => g.players
 
 /-- `_update_credit_strings` -/
 def updStrings (s : St) : St := { s with shown := if s.freePlay then s.shown else some s.units }
+
+/-- `_control_coin_inhibit`: the output is enabled (coins physically accepted) in credit play while the balance *in credit
+units* is below `max_credits` *in credits* — the code as it is -/
+def controlInhibit (c : Cfg) (s : St) : St :=
+  { s with inhibit := if c.inhibit then some (!s.freePlay && decide (s.units < (c.maxCredits : Int))) else s.inhibit }
 
 /-- the `for _ in range(credit_units)` loop of `_add_credit_units`: (tier counter, bonus so far) -/
 def tierLoop (c : Cfg) : Nat → Nat → Int → Nat × Int
@@ -163,7 +180,11 @@ def addUnits (c : Cfg) (s : St) (n : Nat) (tiering : Bool) : St :=
   let total : Int := n + s.units + tb.2
   let mx := maxUnits c
   let u := newUnits s.units total mx
+  controlInhibit c
   { s with tier := tb.1, bonus := s.bonus + tb.2, units := u, lost := s.lost + (total - u),
+           stamp := if (mx ≠ 0 ∧ total > mx) ∨ (mx ≤ 0 ∨ mx > s.units) then s.now else s.stamp,
+           nMax := if mx ≠ 0 ∧ total > mx then s.nMax + 1 else s.nMax,
+           nAdded := if mx ≤ 0 ∨ mx > s.units then s.nAdded + 1 else s.nAdded,
            shown := if s.freePlay then s.shown
                     else if mx ≤ 0 ∨ mx > s.units then some u
                     else if mx ≠ 0 ∧ total > mx then some s.units   -- strings are refreshed before the variable is set
@@ -176,19 +197,20 @@ def resetTimeouts (c : Cfg) (s : St) : St :=
 
 /-- `_clear_fractional_credits` -/
 def clearFrac (c : Cfg) (s : St) : St :=
-  updStrings { s with units := s.units - s.units % (upg c : Int), lost := s.lost + s.units % (upg c : Int) }
+  updStrings { s with units := s.units - s.units % (upg c : Int), lost := s.lost + s.units % (upg c : Int),
+                      stamp := s.now }
 
 /-- `clear_all_credits` -/
 def clearAll (s : St) : St :=
-  updStrings { s with units := 0, tier := 0, lost := s.lost + s.units }
+  updStrings { s with units := 0, tier := 0, lost := s.lost + s.units, stamp := s.now }
 
 /-- the balance after `_player_added` -/
 def deductUnits (c : Cfg) (u : Int) : Int := if u - upg c < 0 then 0 else u - upg c
 
 /-- `_player_added` in credit play -/
 def playerAdded (c : Cfg) (s : St) : St :=
-  updStrings { s with units := deductUnits c s.units, paid := s.paid + 1,
-                      deducted := s.deducted + (s.units - deductUnits c s.units) }
+  controlInhibit c (updStrings { s with units := deductUnits c s.units, paid := s.paid + 1,
+                                        deducted := s.deducted + (s.units - deductUnits c s.units), stamp := s.now })
 
 def enough (c : Cfg) (s : St) : Bool := s.freePlay || decide (s.units ≥ upg c)
 
@@ -196,8 +218,14 @@ def enough (c : Cfg) (s : St) : Bool := s.freePlay || decide (s.units ≥ upg c)
 def joinPlayer (c : Cfg) (s : St) (g : Game) : St :=
   if s.freePlay then { s with game := some g } else playerAdded c { s with game := some g }
 
-/-- `enable_credit_play` -/
-def enableCredit (s : St) : St := { s with freePlay := false, shown := some s.units }
+/-- `enable_credit_play`: the balance is kept, written again (with its on-disk expiry when one is configured) -/
+def enableCredit (c : Cfg) (s : St) : St :=
+  controlInhibit c { s with freePlay := false, shown := some s.units, stamp := s.now,
+                            persisted := s.persisted || decide (c.persist ≠ 0),
+                            expSecs := if c.persist ≠ 0 then c.persist else s.expSecs }
+
+/-- `enable_free_play` -/
+def enableFree (c : Cfg) (s : St) : St := controlInhibit c { s with freePlay := true }
 
 /-- `_game_ended` (only registered in credit play) and the game object going away -/
 def gameOver (c : Cfg) (s : St) : St :=
@@ -214,18 +242,46 @@ the once-per-game flag of the ball-2 restart is cleared -/
 def gameStarted (s : St) : St :=
   if s.freePlay then s else { s with fracDue := none, allDue := none, tier := 0, resetThisGame := false }
 
+/-- a start request refused by `_request_to_start_game` / `_player_add_request`: `not_enough_credits` is posted -/
+def notEnough (s : St) : St := { s with nNotEnough := s.nNotEnough + 1 }
+
+/-- `mode_start` at power-up, and the second until the first request can arrive -/
+def boot (c : Cfg) (s : St) : St :=
+  let s1 := if s.freePlay then enableFree c s else enableCredit c s
+  { s1 with now := s1.now + 1 }
+
+/-- power cycle: the game, the delays, the tier counter and the display variables are gone; the `free_play` setting and the
+earnings are on disk; `credit_units` is on disk when `persist_credits_while_off_time` was configured while credit play was
+enabled, and is dropped at load when its expiry (last write + that time) lies before the moment of loading; a loaded
+variable has no expiry until `enable_credit_play` configures one again.  Then `mode_start`. -/
+def reboot (c : Cfg) (s : St) (off : Nat) : St :=
+  let now' := s.now + off
+  let keep := s.persisted && (s.expSecs == 0 || decide (now' ≤ s.stamp + s.expSecs))
+  let u : Int := if keep then s.units else 0
+  let s0 : St := { s with units := u, lost := s.lost + (s.units - u), tier := 0, resetThisGame := false, shown := none,
+                          game := none, now := now', fracDue := none, allDue := none, inhibit := none,
+                          persisted := keep, expSecs := 0 }
+  boot c s0
+
+/-- `_credit_switch_callback` of coin switch `i` (only registered in credit play) -/
+def coinHit (c : Cfg) (s : St) (i : Nat) : St :=
+  if s.freePlay then s else
+  match c.coins[i]? with
+  | none => s
+  | some v =>
+    let s1 := addUnits c s (v / creditUnit c) true
+    resetTimeouts c { s1 with coinCount := s1.coinCount + 1, earn := s1.earn + v,
+                              inUnits := s1.inUnits + (v / creditUnit c : Nat) }
+
+/-- `toggle_credit_play` -/
+def togglePlay (c : Cfg) (s : St) : St := if s.freePlay then enableCredit c s else enableFree c s
+
 /-- the request itself -/
 def act (c : Cfg) (s : St) : Op → St
-  | .coin i =>
-    if s.freePlay then s else
-    match c.coins[i]? with
-    | none => s
-    | some v =>
-      let s1 := addUnits c s (v / creditUnit c) true
-      resetTimeouts c { s1 with coinCount := s1.coinCount + 1, earn := s1.earn + v,
-                                inUnits := s1.inUnits + (v / creditUnit c : Nat) }
+  | .coin i => coinHit c s i
+  | .coinToggle i => togglePlay c (coinHit c s i)
   | .service =>
-    if s.freePlay then s else
+    if s.freePlay || !c.service then s else
     let s1 := addUnits c s (upg c) false
     { s1 with service := s1.service + 1, granted := s1.granted + upg c }
   | .event j =>
@@ -240,9 +296,10 @@ def act (c : Cfg) (s : St) : Op → St
     | none =>
       if enough c s then
         ballStarting (joinPlayer c (gameStarted s) ⟨1, 0, 1⟩) 1 1
-      else s
+      else notEnough s
     | some g =>
-      if g.players < c.maxPlayers ∧ g.ball ≤ 1 ∧ enough c s then joinPlayer c s { g with players := g.players + 1 }
+      if g.players < c.maxPlayers ∧ g.ball ≤ 1 then
+        (if enough c s then joinPlayer c s { g with players := g.players + 1 } else notEnough s)
       else s
   | .drain =>
     match s.game with
@@ -257,21 +314,24 @@ def act (c : Cfg) (s : St) : Op → St
     | none => s
     | some _ => gameOver c s
   | .adv _ => s
-  | .fpOn => { s with freePlay := true }
-  | .fpOff => enableCredit s
-  | .toggle => if s.freePlay then enableCredit s else { s with freePlay := true }
+  | .fpOn => enableFree c s
+  | .fpOff => enableCredit c s
+  | .toggle => togglePlay c s
   | .reset => clearAll s
   | .slam => clearAll s
   | .earnReset => { s with coinCount := 0, earn := 0, awards := 0, service := 0, paid := 0 }
+  | .reboot off => reboot c s off
 
 def fireFrac (c : Cfg) (s : St) : St :=
   match s.fracDue with
-  | some d => if d ≤ s.now then clearFrac c { s with fracDue := none } else s
+  | some d =>
+    -- the delay fires at its own time `d` (not at the end of the advance): that is when `credit_units` is written
+    if d ≤ s.now then { (clearFrac c { s with fracDue := none }) with stamp := max s.stamp d } else s
   | none => s
 
 def fireAll (s : St) : St :=
   match s.allDue with
-  | some d => if d ≤ s.now then clearAll { s with allDue := none } else s
+  | some d => if d ≤ s.now then { (clearAll { s with allDue := none }) with stamp := max s.stamp d } else s
   | none => s
 
 /-- `dt` seconds pass; both expirations may fire (they commute) -/
@@ -287,8 +347,9 @@ def run (c : Cfg) : St → List Op → St
   | s, [] => s
   | s, op :: rest => run c (step c s op) rest
 
+/-- first power-up: nothing on disk, `mode_start` with the configured `free_play` -/
 def init (c : Cfg) : St :=
-  if c.freePlay then { freePlay := true } else { freePlay := false, shown := some 0 }
+  boot c { freePlay := c.freePlay }
 
 /-! ## driver -/
 
@@ -310,6 +371,7 @@ def showSt (c : Cfg) (s : St) : String :=
   let str := if s.freePlay then "FREE PLAY" else match s.shown with | none => "-" | some u => "CREDITS " ++ showFrac c u
   s!"u={s.units} t={s.tier} r={if s.resetThisGame then 1 else 0} fp={if s.freePlay then 1 else 0} g={g} " ++
   s!"fd={showDue s s.fracDue} ad={showDue s s.allDue} a={s.coinCount}/{s.earn}/{s.awards}/{s.service}/{s.paid} " ++
+  s!"ev={s.nAdded}/{s.nMax}/{s.nNotEnough} ci={match s.inhibit with | none => "-" | some true => "1" | some false => "0"} " ++
   s!"v={v};{str}"
 
 def parseNats (s : String) : Option (List Nat) :=
@@ -324,14 +386,16 @@ def parsePairs (s : String) : Option (List (Nat × Nat)) :=
   if s = "" then some [] else (s.splitOn ",").mapM parsePair
 
 def parseCfg : List String → Option Cfg
-  | [one, mx, fe, ae, bpg, mp, fp, cs, ts, es] => do
+  | [one, mx, fe, ae, bpg, mp, fp, sv, pe, ih, cs, ts, es] => do
     let fpb ← if fp = "1" then some true else if fp = "0" then some false else none
+    let svb ← if sv = "1" then some true else if sv = "0" then some false else none
+    let ihb ← if ih = "1" then some true else if ih = "0" then some false else none
     let cs' ← if cs.startsWith "c:" then parseNats (cs.drop 2).toString else none
     let ts' ← if ts.startsWith "t:" then parsePairs (ts.drop 2).toString else none
     let es' ← if es.startsWith "e:" then parseNats (es.drop 2).toString else none
     pure { one := ← one.toNat?, maxCredits := ← mx.toNat?, fracExp := ← fe.toNat?, allExp := ← ae.toNat?,
            ballsPerGame := ← bpg.toNat?, maxPlayers := ← mp.toNat?, freePlay := fpb, coins := cs', tiers := ts',
-           events := es' }
+           events := es', service := svb, persist := ← pe.toNat?, inhibit := ihb }
   | _ => none
 
 def parseOp : List String → Option Op
@@ -348,6 +412,8 @@ def parseOp : List String → Option Op
   | ["reset"] => some .reset
   | ["slam"] => some .slam
   | ["earnreset"] => some .earnReset
+  | ["reboot", n] => n.toNat?.map .reboot
+  | ["cointog", i] => i.toNat?.map .coinToggle
   | _ => none
 
 def showTable (c : Cfg) : String :=
